@@ -14,9 +14,9 @@ MaxE3   == EnvInt("VERIF_MAXE3", 0)     \* |exponent| bound for three-factor sid
 Prefixed == EnvInt("VERIF_PREFIXED", 0)
 
 MCFund == {"L", "T", "M", "I"}
-BaseSeq == <<"ma", "mc", "md", "sa", "gb", "gc", "aa", "fa", "ea", "ra", "pa", "mb", "sb", "ga", "pb", "va", "ia", "ib", "la", "gd">>
+BaseSeq == <<"ma", "mc", "md", "sa", "gb", "gc", "aa", "fa", "ea", "ra", "pa", "mb", "sb", "ga", "pb", "va", "ia", "ib", "la", "gd", "pc">>
 \* the units that pairs are enumerated over (a prefix of BaseSeq; all declarations stay in force)
-EnumBase == {BaseSeq[i] : i \in 1..EnvInt("VERIF_NENUM", 20)}
+EnumBase == {BaseSeq[i] : i \in 1..EnvInt("VERIF_NENUM", 21)}
 MCBase == {BaseSeq[i] : i \in 1..Len(BaseSeq)}
 D(l, t, m, i) == [L |-> l, T |-> t, M |-> m, I |-> i]
 MCbdim == [b \in MCBase |->
@@ -26,7 +26,7 @@ MCbdim == [b \in MCBase |->
      [] b = "aa"                 -> D(1, -2, 0, 0)      \* acceleration-like (g-force)
      [] b = "fa"                 -> D(1, -2, 1, 0)      \* force-like base unit (pound-force)
      [] b = "ea"                 -> D(2, -2, 1, 0)      \* energy-like (calorie)
-     [] b \in {"pa", "pb"}       -> D(2, -3, 1, 0)      \* power-like (horsepower, donkeypower)
+     [] b \in {"pa", "pb", "pc"} -> D(2, -3, 1, 0)      \* power-like (horsepower, donkeypower, a BTU-per-hour-like one)
      [] b = "ra"                 -> D(2, 0, 0, 0)       \* area-like (acre)
      [] b = "va"                 -> D(3, 0, 0, 0)       \* volume-like (liter)
      [] b \in {"ia", "ib"}       -> D(0, 0, 0, 1)       \* information-like alias pair
@@ -54,7 +54,8 @@ MCCands == <<
   C("la", <<6, 0, 4>>, 0, {<<"gb", 1>>, <<"sa", -2>>}),            \* 17  la = 40000 joule-likes / ma^2
   C("gb", <<0, 0, 0>>, 3, {<<"ga", 1>>}),                          \* 18  gb = 1 kilo-ga      (redundant, prefixed)
   CL("gd", 3, <<1, 0, 0>>, 0, {<<"gb", 1>>}),                      \* 19  1 kilo-gd = 2 gb     (prefixed LEFT side)
-  C("md", <<0, 0, 1>>, 0, {<<"mc", 1>>}) >>                        \* 20  md = 5 mc ONLY: two hops from ma and mb
+  C("md", <<0, 0, 1>>, 0, {<<"mc", 1>>}),                          \* 20  md = 5 mc ONLY: two hops from ma and mb
+  C("pc", <<0, 1, 0>>, 0, {<<"ea", 1>>, <<"sb", -1>>}) >>          \* 21  pc = 3 ea/sb: a quotient over the OTHER time unit than pa's
 MCRoots == {"ma", "sa", "ga", "ia"}
 
 Mask == EnvInt("VERIF_SUBSET", 0)
